@@ -1008,6 +1008,8 @@ class MarkovChainMonteCarloMethod:
         elif progress_bar_class is None:
             progress_bar_class = SequenceProgressBar
             sampling_stage_bar_class = LabelledSequenceProgressBar
+        else:
+            sampling_stage_bar_class = LabelledSequenceProgressBar
         if n_process is None:
             n_process = os.cpu_count()
         n_chain = len(init_states)
